@@ -308,9 +308,7 @@ func runCheck(prop, tier string, writeLock bool) int {
 	sem := make(chan struct{}, envInt("VERIF_JOBS", 12))
 	only := os.Getenv("VERIF_ONLY")
 	for _, o := range allObls {
-		if o.Cover && tier != "thorough" && !strings.HasSuffix(o.Name, "cover/pre") {
-			continue
-		}
+		_ = tier
 		if only != "" && !strings.Contains(o.Name, only) {
 			continue
 		}
@@ -369,20 +367,43 @@ func runCheck(prop, tier string, writeLock bool) int {
 	}
 	var knownLines []string
 	vacuity := map[string]string{}
+	lockedSet := map[string]bool{}
+	nRetOf := map[string]int{}
+	for _, e := range execs {
+		nRetOf[e.fnName] = e.nRet
+	}
+	{
+		locks0 := map[string][]string{}
+		loadJSON(filepath.Join(verifRoot, "obligations.lock.json"), &locks0)
+		for _, n := range locks0[prop] {
+			lockedSet[n] = true
+		}
+	}
 	for _, o := range allObls {
 		if o.Res.Status == "" {
 			continue // not run in this tier
 		}
 		solverTime += o.Res.TimeS
 		if o.Cover {
+			isPre := strings.HasSuffix(o.Name, "cover/pre")
 			switch o.Res.Status {
 			case "sat":
 				vacuity[o.Name] = "reachable"
+				seenLock[o.Name] = true
 			case "unsat":
-				vacuity[o.Name] = "VACUOUS"
-				violate(o.Name, true, map[string]interface{}{"reason": "vacuity: the hypotheses of this function are contradictory, every obligation would pass", "clause": o.Clause})
+				// an unreachable return can be legitimate dead code; it is a violation if the precondition itself is
+				// contradictory, or if this return was reachable on the unchanged tree (recorded in the lock file)
+				vacuity[o.Name] = "unreachable"
+				fnKey := o.Fn + "/cover/nret=" + strconv.Itoa(nRetOf[o.Fn])
+				if isPre || (lockedSet[o.Name] && lockedSet[fnKey]) {
+					vacuity[o.Name] = "VACUOUS"
+					violate(o.Name, true, map[string]interface{}{"reason": "vacuity: hypotheses are contradictory here although this point was reachable on the unchanged tree; every obligation behind it would pass trivially", "clause": o.Clause})
+				}
 			default:
 				vacuity[o.Name] = "undecided (" + o.Res.Status + ")"
+				if lockedSet[o.Name] {
+					seenLock[o.Name] = true // undecided is not an alarm
+				}
 			}
 			continue
 		}
@@ -454,6 +475,9 @@ func runCheck(prop, tier string, writeLock bool) int {
 	lockPath := filepath.Join(verifRoot, "obligations.lock.json")
 	locks := map[string][]string{}
 	loadJSON(lockPath, &locks)
+	for fn, n := range nRetOf {
+		seenLock[fn+"/cover/nret="+strconv.Itoa(n)] = true
+	}
 	if writeLock {
 		var names []string
 		for n := range seenLock {
@@ -466,6 +490,9 @@ func runCheck(prop, tier string, writeLock bool) int {
 		fmt.Printf("lock: %d clause-level obligations recorded for %s\n", len(names), prop)
 	} else if only == "" {
 		for _, n := range locks[prop] {
+			if strings.Contains(n, "/cover/") {
+				continue // reachability entries are used by the vacuity guard only
+			}
 			if !seenLock[n] {
 				// it may have failed (already reported) or vanished
 				reported := false
